@@ -77,6 +77,10 @@ def replay(prop: str, path: str) -> int:
             print("MACHINERY: program did not finish: " + tr["status"])
             return 2
         checks_decode.judge_spans(run, [tr], (prop + ".",))
+        if rp["program"].get("cfg", {}).get("fam") in ("ET", "DT") and "bat" in rp["program"].get("cfg", {}):
+            # configuration programs are also compared with the prediction of Inverter.tla (C15.SupportedPresent)
+            from . import checks_model
+            checks_model.compare_predictions(run, [rp["program"]], [tr])
         seen = set()
         for v in run.violations:
             if v["clause"] not in seen:
